@@ -23,7 +23,7 @@ type c05Params struct {
 	Ending   string      `json:"ending"`   // duration trigger-duration limit cancel-before cancel-setup cancel-eval cancel-body cancel-out setup-fail setup-panic
 	Blocking string      `json:"blocking"` // none gated forever
 	At       int         `json:"at"`       // evaluation m / body j / ms
-	Script   string      `json:"script"`   // "" | late-tick | slow-output | tick-at-finish
+	Script   string      `json:"script"`   // "" | late-tick | slow-output | tick-at-finish | stop-path
 	Desc     string      `json:"desc"`
 	// ReleaseMS > 0 (ending duration, blocking gated): the held bodies are released this long after max-duration
 	ReleaseMS int `json:"release_ms,omitempty"`
@@ -339,8 +339,11 @@ func init() {
 				ns = 10
 			}
 			for i := 0; i < ns; i++ {
-				for j, s := range []string{"late-tick", "slow-output", "tick-at-finish"} {
+				for j, s := range []string{"late-tick", "slow-output", "tick-at-finish", "stop-path"} {
 					mode := pick(r, "users", "constant", "custom")
+					if s == "stop-path" && mode == "users" {
+						mode = "constant"
+					}
 					p := c05Params{Script: s, Ending: "cancel-out", Blocking: "none"}
 					if mode == "users" {
 						p.Spec = engine.Spec{Mode: "users", Concurrency: 2, MaxDurationMS: 60000}
@@ -350,7 +353,7 @@ func init() {
 					p.Spec.IgnoreDropped = true
 					p.Spec.Interactive = s == "slow-output" && i%2 == 0
 					p.Desc = fmt.Sprintf("script=%s mode=%s interactive=%v", s, mode, p.Spec.Interactive)
-					cse := core.MkCase("C05", "script", i*3+j, seed, p)
+					cse := core.MkCase("C05", "script", i*4+j, seed, p)
 					cse.Race = i%2 == 0
 					cse.Solo = true
 					cse.TimeoutMS = 45000
@@ -830,6 +833,46 @@ func c05Script(c *core.Case, o *core.Outcome) {
 		}
 		for site, n := range hc.ReachedCounts() {
 			o.AddObs("hook:"+site, n)
+		}
+	case "stop-path":
+		// the pool's stop path (which still discards and accounts pending requests) is held at hook pool.stop.beforeDrain
+		// after the run was ended: it is part of the run, Do may not return before it is through
+		hc := engine.NewHookCtl(c.Seed)
+		pk := hc.ParkNth("pool.stop.beforeDrain", 1)
+		hc.Install()
+		defer hc.Uninstall()
+		done := make(chan *engine.Run, 1)
+		go func() { done <- engine.Execute(ctx, p.Spec, l, scenario, nil, nil) }()
+		if !waitUntil(15*time.Second, func() bool { return started.Load() >= 3 }) {
+			cancel()
+			<-done
+			o.Inconc("no iteration started")
+			return
+		}
+		cancel()
+		select {
+		case <-pk.Arrived:
+		case <-time.After(15 * time.Second):
+			<-done
+			o.Inconc("the stop path was not reached")
+			return
+		}
+		select {
+		case <-done:
+			o.Violate(key, "Do returned while the trigger pool's stop path had not finished (held before discarding the pending requests): part of the run was still running")
+			return
+		case <-time.After(700 * time.Millisecond):
+		}
+		pk.Release()
+		select {
+		case r := <-done:
+			if r.NewErr != nil {
+				o.Inconc("harness: %v", r.NewErr)
+				return
+			}
+		case <-time.After(20 * time.Second):
+			o.Violate("do-never-returns:"+p.Desc, "Do had not returned 20 s after the stop path was let go (%s)", p.Desc)
+			return
 		}
 	case "slow-output":
 		var slow atomic.Int64
